@@ -752,6 +752,31 @@ Definition grid_index (gs : list gid) (i : index) : gsel :=
   | IEll => GSErr
   end.
 
+(* __getitem__ after the index has been brought into tuple form and ellipses have been resolved *)
+Definition getitem_finish (fl : option axes) (sh : shape) (gs : list gid) (multi : bool) (ix : list index) : ores :=
+  match index_data sh ix with
+  | DErr e => OErr e
+  | DTuple _ => OErr ERuntime
+  | DOne d =>
+      let plain := OOne (plain_out d) in
+      match ix with
+      | [] => OErr EIndex            (* index[0] of an empty tuple *)
+      | i0 :: rest =>
+          if multi && (match rest with IInt _ :: _ => true | _ => false end) then plain
+          else
+            match grid_index gs i0 with
+            | GSErr => OErr EIndex
+            | sel =>
+                if multi && (2 <? length ix) && negb (spatial_full ix sh) then plain
+                else match sel with
+                     | GSOne g => if ndim (d_shape d) <? 3 then plain else one_kind d (make_subitem fl (d_shape d) g)
+                     | GSMany gl => if ndim (d_shape d) <? 4 then plain else one_kind d (make_instance fl (d_shape d) gl)
+                     | GSErr => OErr EIndex
+                     end
+            end
+      end
+  end.
+
 Definition getitem_batch (fl : option axes) (sh : shape) (gs : list gid) (f : gform) : ores :=
   match f with
   | GOne IEll =>
@@ -759,37 +784,12 @@ Definition getitem_batch (fl : option axes) (sh : shape) (gs : list gid) (f : gf
       | [] => OErr EIndex
       | g0 :: _ => one_kind (mkD sh (ident_src 0 (nent sh))) (make_instance fl sh (repeat g0 (nent sh)))   (* self.grid() is grid 0 *)
       end
-  | _ =>
-      let multi := match f with GOne (IInt _) => false | _ => true end in
-      match (match f with
-             | GTup l => resolve_ell (ndim sh) l
-             | GOne i => Some [i]
-             end) with
-      | None => OErr EIndex
-      | Some ix =>
-          match index_data sh ix with
-          | DErr e => OErr e
-          | DTuple _ => OErr ERuntime
-          | DOne d =>
-              let plain := OOne (plain_out d) in
-              match ix with
-              | [] => OErr EIndex            (* index[0] of an empty tuple *)
-              | i0 :: rest =>
-                  if multi && (match rest with IInt _ :: _ => true | _ => false end) then plain
-                  else
-                    match grid_index gs i0 with
-                    | GSErr => OErr EIndex
-                    | sel =>
-                        if multi && (2 <? length ix) && negb (spatial_full ix sh) then plain
-                        else match sel with
-                             | GSOne g => if ndim (d_shape d) <? 3 then plain else one_kind d (make_subitem fl (d_shape d) g)
-                             | GSMany gl => if ndim (d_shape d) <? 4 then plain else one_kind d (make_instance fl (d_shape d) gl)
-                             | GSErr => OErr EIndex
-                             end
-                    end
+  | GOne (IInt z) => getitem_finish fl sh gs false [IInt z]
+  | GOne i => getitem_finish fl sh gs true [i]
+  | GTup l => match resolve_ell (ndim sh) l with
+              | None => OErr EIndex
+              | Some ix => getitem_finish fl sh gs true ix
               end
-          end
-      end
   end.
 
 (* the whole user-visible operation on [cur; other...] *)
